@@ -202,3 +202,31 @@ bool mapentry_ok(draco::PointAttribute *att, const std::vector<uint32_t> &ids,
 }
 
 }  // namespace verif_control
+
+// ---- LOOPBOUND (C02: finitely many steps) ---------------------------------
+namespace verif_control {
+bool loopiter_bad(draco::DecoderBuffer *b, uint32_t *acc) {
+  int32_t n = 0;
+  if (!b->Decode(&n) || n < 0) return false;
+  for (int i = 0; i < n; ++i) *acc += i;  // 2^31 iterations from 4 bytes
+  return true;
+}
+}  // namespace verif_control
+
+// a guard whose stream-derived side can wrap around is not a bound
+namespace verif_control {
+bool alloc_wrap_bad(draco::DecoderBuffer *b, std::vector<int> *v) {
+  uint32_t n;
+  if (!b->Decode(&n)) return false;
+  if (5 * n > b->remaining_size()) return false;  // 5*n wraps in 32 bits
+  v->resize(n);
+  return true;
+}
+bool alloc_wide_ok(draco::DecoderBuffer *b, std::vector<int> *v) {
+  uint32_t n;
+  if (!b->Decode(&n)) return false;
+  if (5 * static_cast<uint64_t>(n) > static_cast<uint64_t>(b->remaining_size())) return false;
+  v->resize(n);
+  return true;
+}
+}  // namespace verif_control
